@@ -124,7 +124,7 @@ def idc_star(
             )
             new_outcomes = {
                 (
-                    outcome.intervene(condition)
+                    outcome.intervene(new_conditions[condition])
                     if condition in cf_graph.ancestors_inclusive(outcome)
                     else outcome
                 ): value
